@@ -67,7 +67,8 @@ def make_obj(o):
         spec = fac()
     spec.name = "verif"
     for v in o.get("declare", o["vars"]):
-        spec.declare_var(v, "float")
+        if "." not in v:                      # "o.x": a field of the object variable o (declared below)
+            spec.declare_var(v, "float")
     io = o.get("mode", {}).get("io", {})
     for v, t in sorted(io.items()):
         if o.get("set_io", sem != "standard"):
@@ -83,13 +84,26 @@ def make_obj(o):
     for s in o.get("subs", []):
         spec.add_sub_spec(s)
     spec.spec = o["text"]
-    if o.get("out_field"):
-        # the output is a field of an object variable: "o.value = <formula>" instead of "out = <formula>"
+    if o.get("out_field") or any("." in v for v in o.get("declare", o["vars"])):
         spec.import_module("vmsgs", "Msg")
         spec.declare_var("o", "Msg")
+    if o.get("out_field"):
+        # the output is a field of an object variable: "o.value = <formula>" instead of "out = <formula>"
         assert o["text"].startswith("out = ")
         spec.spec = "o.value = " + o["text"][len("out = "):]
     return spec
+
+
+def objectify(args, dense=False):
+    """[["o.x", payload], ...] -> [["o", Msg payload], ...]: the input o.x is delivered as the field x of the object signal o"""
+    from vmsgs import Msg
+    out = []
+    for a in args:
+        if a[0] == "o.x":
+            out.append(["o", [[p[0], Msg(p[1])] for p in a[1]] if dense else Msg(a[1])])
+        else:
+            out.append(a)
+    return out
 
 
 def py_val(v, S, as_float):
@@ -139,7 +153,7 @@ def run_case(case):
                     spec = specs[oi]
                     tS = o.get("tS", 1)
                     order = ev.get("order") or sorted(ev["w"].keys())
-                    args = [[v, [[py_val(p[0], tS, False), py_val(p[1], S, ev.get("flt", False))] for p in ev["w"][v]]] for v in order]
+                    args = objectify([[v, [[py_val(p[0], tS, False), py_val(p[1], S, ev.get("flt", False))] for p in ev["w"][v]]] for v in order], dense=True)
                     for v in sorted(ev.get("extra", {})):      # supplied but never declared; anywhere in the argument list
                         args.insert(min(ev.get("extra_at", len(args)), len(args)), [v, [list(p) for p in ev["extra"][v]]])
                     if ev.get("share"):
@@ -165,7 +179,7 @@ def run_case(case):
                 elif a == "update":
                     spec = specs[oi]
                     order = ev.get("order") or sorted(ev["s"].keys())
-                    args = [[v, py_val(ev["s"][v], S, ev.get("flt", False))] for v in order]
+                    args = objectify([[v, py_val(ev["s"][v], S, ev.get("flt", False))] for v in order])
                     for v in sorted(ev.get("extra", {})):
                         args.insert(min(ev.get("extra_at", len(args)), len(args)), [v, ev["extra"][v]])
                     if ev.get("share"):
@@ -194,6 +208,9 @@ def run_case(case):
                     order = ev.get("order") or sorted(ev["w"].keys())
                     for v in order:
                         data[v] = [py_val(x, S, ev.get("flt", False)) for x in ev["w"][v]]
+                    if "o.x" in data:
+                        from vmsgs import Msg
+                        data = {("o" if k == "o.x" else k): ([Msg(x) for x in d] if k == "o.x" else d) for k, d in data.items()}
                     for v in ev.get("extra", {}):
                         data[v] = list(ev["extra"][v])
                     if ev.get("share"):
